@@ -413,7 +413,7 @@ package redis
 //@   prop C01 C03 C11
 //@   requires r != nil && r.raw != nil && forall k int :: 0 <= k && k < len(r.children) ==> r.children[k] != nil && r.children[k].resp != nil
 //@   callpre SetResponse @sum-or-error arg0 == r.raw && arg1 != nil && (arg1.Type == 58 ==> arg1.Int == sumints(r.children, len(r.children)) && allints(r.children, len(r.children))) && (arg1.Type != 58 ==> arg1.Type == 45 && !allints(r.children, len(r.children)))
-//@   loop 0 invariant r.children == old(r.children) && total == sumints(r.children, rangeindex + 1) && 0 <= errCount && (errCount == 0) == allints(r.children, rangeindex + 1)
+//@   loop 0 invariant r.children == old(r.children) && total == sumints(r.children, rangeindex + 1) && 0 <= errCount && errCount <= rangeindex + 1 && (errCount == 0) == allints(r.children, rangeindex + 1)
 //@   loop 0 unfold sumints(r.children, rangeindex + 2)
 //@   loop 0 unfold allints(r.children, rangeindex + 2)
 //@   loop 0 unfold sumints(r.children, rangeindex + 1)
